@@ -24,6 +24,7 @@ type ChainCase struct {
 	A, B, C, D string
 	O1, O2, O3 string
 	Right      bool
+	Balanced   bool // (a o1 b) o2 (c o3 d): two intermediate results are alive at once
 }
 
 // DataNumCase: Go numeric values entering through the data map.
@@ -191,7 +192,15 @@ func judgeChain(c ChainCase) *eng.Fail {
 	var want ref.Dec
 	var ok bool
 	var expr string
-	if !c.Right {
+	if c.Balanced {
+		expr = fmt.Sprintf("(%s %s %s) %s (%s %s %s)", c.A, c.O1, c.B, c.O2, c.C, c.O3, c.D)
+		var l, r ref.Dec
+		if l, ok = refOp(c.O1, a, b); ok {
+			if r, ok = refOp(c.O3, cc, d); ok {
+				want, ok = refOp(c.O2, l, r)
+			}
+		}
+	} else if !c.Right {
 		expr = fmt.Sprintf("((%s %s %s) %s %s) %s %s", c.A, c.O1, c.B, c.O2, c.C, c.O3, c.D)
 		if want, ok = refOp(c.O1, a, b); ok {
 			if want, ok = refOp(c.O2, want, cc); ok {
@@ -220,6 +229,28 @@ func judgeChain(c ChainCase) *eng.Fail {
 	outcome(want.String())
 	if !got.Finite() || !got.Equal(want) {
 		return eng.F("C04/wrong-chain", "%s = %s, expected %s", expr, got, want)
+	}
+	if c.Balanced {
+		// independent results that are alive at the same time must not influence each other
+		l, ok1 := refOp(c.O1, a, b)
+		r, ok2 := refOp(c.O3, cc, d)
+		if ok1 && ok2 {
+			twin := fmt.Sprintf("[%s %s %s, %s %s %s, %s %s %s]", c.A, c.O1, c.B, c.C, c.O3, c.D, c.A, c.O1, c.B)
+			o, perr := evalSrc(twin, nil)
+			if perr != nil || o.panicked || o.err != nil {
+				return eng.F("C04/eval", "%s: %v %v %s", twin, perr, o.err, o.panicMsg)
+			}
+			arr, _ := o.val.([]interface{})
+			if len(arr) != 3 {
+				return eng.F("C04/eval", "%s: result %s", twin, show(o.val))
+			}
+			for i, w := range []ref.Dec{l, r, l} {
+				g, ok := decOf(arr[i])
+				if !ok || !g.Finite() || !g.Equal(w) {
+					return eng.F("C04/independent-results", "%s: element %d is %s, expected %s", twin, i, show(arr[i]), w)
+				}
+			}
+		}
 	}
 	return nil
 }
@@ -373,12 +404,12 @@ func runC04(w *eng.W) {
 	cops := []string{"+", "-", "*", "/", "%"}
 	seqsSharded(w, len(sub), 4, func(idx []int) {
 		seqs(len(cops), 3, func(o []int) {
-			for _, right := range []bool{false, true} {
+			for shape := 0; shape < 3; shape++ {
 				w.State(1)
 				w.Trans(3)
 				w.Trace(1)
 				w.Note("leg:chains", 1)
-				c := ChainCase{A: sub[idx[0]], B: sub[idx[1]], C: sub[idx[2]], D: sub[idx[3]], O1: cops[o[0]], O2: cops[o[1]], O3: cops[o[2]], Right: right}
+				c := ChainCase{A: sub[idx[0]], B: sub[idx[1]], C: sub[idx[2]], D: sub[idx[3]], O1: cops[o[0]], O2: cops[o[1]], O3: cops[o[2]], Right: shape == 1, Balanced: shape == 2}
 				w.Sample("chains", c)
 				c04Chain.Do(w, c)
 			}
